@@ -100,6 +100,42 @@ HETERO = [
 ]
 HETERO_FAMS = [("uniform", 10.0), ("geometric", 1e2)]
 
+# tiny-norm columns in both precisions: column norms on the ladder 1e-5 .. 1e-9 (kinds 5..9), between the rhs_is_zero threshold
+# eps = 1e-10 and well above float32 machine epsilon 1.2e-7, next to normal / 1e-12 / zero columns.  Such a column is NOT zero:
+# it is normalised and solved like any other (scaling law).  Tolerances <= 1e-2 so that an unsolved column cannot hide in
+# the mean; the scaling predicate multiplies these systems by 2^12 (across the whole ladder).
+TINY = [
+    dict(cols="n98", dtype="float32", tol=1e-2),
+    dict(cols="76n5", dtype="float32", tol=1e-2, pre="jacobi"),
+    dict(cols="9t8n", dtype="float32", tol=1e-2, batch=[2]),
+    dict(cols="8z7", dtype="float32", tol=1e-3),
+    dict(cols="n987", tol=1e-6),
+    dict(cols="5t9", tol=1e-8, pre="jacobi", batch=[2]),
+]
+# number of rows of t_mat where the exit rule is live: n >= 12, n_tridiag_iter = min(max_tridiag_iter, n) >= 11 (the exit
+# test is only evaluated for k >= 10), max_iter > max_tridiag_iter, default (1) and loose tolerances - the mean residual is
+# below the tolerance long before the requested number of Lanczos steps is complete, and only the clause
+# `k < min(n_tridiag_iter, max_iter - 1)` keeps the loop running.
+TRIROWS = [
+    dict(cols="nn", n_tridiag=2, max_tridiag_iter=12, budgets=[12, 13, 16, 24]),
+    dict(cols="n", n_tridiag=1, max_tridiag_iter=11, tol=0.5, pre="jacobi", budgets=[11, 12, 20]),
+    dict(cols="nn", n_tridiag=1, max_tridiag_iter=14, tol=1e-1, batch=[2], budgets=[14, 15, 30]),
+    dict(cols="nn", n_tridiag=2, max_iter_default=True, set_max_cg=25, set_max_lq=13),
+    dict(cols="n", n_tridiag=1, max_iter_default=True, set_max_cg=40, tcs=True),        # default 20 Lanczos steps
+]
+TRIROWS_FAMS = [("uniform", 10.0), ("geometric", 1e2), ("uniform", 1e3)]
+# operator-level entry points (LinearOperator.solve / ._solve / .inv_quad on the CG path): every limit comes from the
+# settings; budgets that cannot reach the tolerance (the NumericalWarning must surface through the operator, with
+# settings.debug on and off) and budgets that can (no warning, residual below the tolerance).
+OPCELLS = [
+    dict(fam="geometric", kappa=1e4, cols="nn", set_max_cg=5, set_max_lq=4, set_tol=1e-4),
+    dict(fam="uniform", kappa=1e3, cols="n", set_max_cg=3, set_max_lq=2, set_tol=1e-2, batch=[2]),
+    dict(fam="uniform", kappa=10.0, cols="nn", set_max_cg=12, set_max_lq=5, set_tol=1e-8),
+    dict(fam="uniform", kappa=10.0, cols="nn", set_max_cg=60, set_max_lq=5, set_tol=1e-3),
+    dict(fam="clustered", kappa=1e4, cols="nz", set_max_cg=8, set_max_lq=3, set_tol=1e-5, pre="jacobi"),
+    dict(fam="geometric", kappa=1e2, cols="n", set_max_cg=30, set_max_lq=10, rhs_vec=True),   # default tolerance 1
+]
+
 
 def mkspec(fam, kappa, n, prof, vseed, quick):
     sp = {"fam": fam, "kappa": kappa, "n": n, "batch": [], "cols": "n", "vseed": vseed}
@@ -114,6 +150,8 @@ def budgets_for(sp, quick):
     n = sp["n"]
     if sp.get("max_iter_default"):
         return [None]
+    if sp.get("budgets"):
+        return list(sp["budgets"])
     K = min(n + 2, 8 if quick else 12)
     bs = list(range(1, K + 1))
     if full_ok(sp):
@@ -205,6 +243,22 @@ def grid(quick, rng):
             fam, kappa = HETERO_FAMS[hi % len(HETERO_FAMS)]
             hi += 1
             systems.append(mkspec(fam, kappa, n, he, rng.getrandbits(40), quick))
+    ti = 0
+    for tp in TINY:
+        for n in ([3, 8] if quick else [2, 3, 5, 8, 16]):
+            fam, kappa = HETERO_FAMS[ti % 2] if tp.get("dtype") != "float32" else ("uniform", 10.0)
+            ti += 1
+            systems.append(mkspec(fam, kappa, n, tp, rng.getrandbits(40), quick))
+    ti = 0
+    for tp in TRIROWS:
+        for n in ([16, 32] if quick else [12, 13, 16, 24, 32, 48]):
+            fam, kappa = TRIROWS_FAMS[ti % len(TRIROWS_FAMS)]
+            ti += 1
+            systems.append(mkspec(fam, kappa, n, tp, rng.getrandbits(40), quick))
+    for oc in OPCELLS:
+        for n in ([8, 24] if quick else [3, 8, 16, 24, 40]):
+            prof = dict(oc, max_iter_default=True, op=True)
+            systems.append(mkspec(prof.pop("fam"), prof.pop("kappa"), n, prof, rng.getrandbits(40), quick))
     out = []
     for sp in systems:
         bs = budgets_for(sp, quick)
